@@ -426,6 +426,7 @@ func runC03(c *Ctx) {
 	checkLoaderCopies(c, "C03-R4")
 	checkIssuerAddrType(c, "C03-R5")
 	checkAddrTypeFollowsBranch(c, "C03-R5")
+	checkImportAddressIDAgreesWithConstructor(c, "C03-R5") // imported keys are found again under the address they map to
 }
 
 func isExtractOf(v ssa.Value, call *ssa.Call, idx int) bool {
